@@ -63,21 +63,21 @@ type c18Notif struct {
 }
 
 type c18Reply struct {
-	Kind int `json:"kind"` // 0 own, 1 unmarshal, 2 timeout, 3 subscriber closed, 9 unclassifiable
-	Res  int `json:"res"`
+	Kind   int  `json:"kind"` // 0 own, 1 unmarshal, 2 timeout, 3 subscriber closed, 9 unclassifiable
+	Res    int  `json:"res"`
 	HasErr bool `json:"haserr"` // Reply.Error != nil (handler error)
-	Err  int `json:"err"` // interned text of the handler error (0 = "")
-	Nid  int `json:"nid"`
+	Err    int  `json:"err"`    // interned text of the handler error (0 = "")
+	Nid    int  `json:"nid"`
 }
 
 type c18Delivery struct {
 	K      int             `json:"k"`
-	Op     int             `json:"op"`   // op id metadata of the command message
-	Res    int             `json:"res"`  // interned result
+	Op     int             `json:"op"`     // op id metadata of the command message
+	Res    int             `json:"res"`    // interned result
 	HasErr bool            `json:"haserr"` // the handler returned an error
-	Err    int             `json:"err"`  // interned error text (0 = "")
-	Nid    int             `json:"nid"`  // uuid of the published notification (0 if none)
-	Enc    [2]int          `json:"enc"`  // harness json.Marshal(result): res id -> payload id (-1 = error)
+	Err    int             `json:"err"`    // interned error text (0 = "")
+	Nid    int             `json:"nid"`    // uuid of the published notification (0 if none)
+	Enc    [2]int          `json:"enc"`    // harness json.Marshal(result): res id -> payload id (-1 = error)
 	Step   c18Step         `json:"step"`
 	Events [][]interface{} `json:"events"`
 }
@@ -110,32 +110,59 @@ type c18Req struct {
 	Deliveries []*c18Delivery  `json:"deliveries"`
 	ReadTO     int             `json:"read_timeouts"`
 
-	mu        sync.Mutex
-	opid      string
-	offered   []*message.Message
-	cur       *c18Delivery
-	nDeliv    int
-	bsCount   int // before_send stamps of this listener
-	finished  bool
-	ch        <-chan requestreply.Reply[c18Res]
-	chNo      <-chan requestreply.Reply[struct{}]
-	cancel    func()
-	pcancel   func()
-	cmdUUID   string
+	mu       sync.Mutex
+	opid     string
+	offered  []*message.Message
+	cur      *c18Delivery
+	nDeliv   int
+	bsCount  int // before_send stamps of this listener
+	finished bool
+	ch       <-chan requestreply.Reply[c18Res]
+	chNo     <-chan requestreply.Reply[struct{}]
+	cancel   func()
+	pcancel  func()
+	cmdUUID  string
 }
 
 type c18Scenario struct {
-	Index      int       `json:"index"`
-	AckErrors  bool      `json:"ack_errors"`
-	HasErrH    bool      `json:"has_errh"`
-	HasModify  bool      `json:"has_modify"`
-	HasHook    bool      `json:"has_hook"`
-	WithResult bool      `json:"with_result"`
-	TimeoutMs  int       `json:"timeout_ms"`
-	Reqs       []*c18Req `json:"reqs"`
-	ParkedG    int       `json:"parked_goroutines"`
-	WaitedMs   int       `json:"waited_ms"`
-	Problems   []string  `json:"problems"`
+	Index           int       `json:"index"`
+	AckErrors       bool      `json:"ack_errors"`
+	HasErrH         bool      `json:"has_errh"`
+	HasModify       bool      `json:"has_modify"`
+	HasHook         bool      `json:"has_hook"`
+	WithResult      bool      `json:"with_result"`
+	TimeoutMs       int       `json:"timeout_ms"`
+	CustomMarshaler bool      `json:"custom_marshaler"` // a BackendPubsubMarshaler that writes a bogus operation id and extra keys
+	Reqs            []*c18Req `json:"reqs"`
+	ParkedG         int       `json:"parked_goroutines"`
+	WaitedMs        int       `json:"waited_ms"`
+	Problems        []string  `json:"problems"`
+}
+
+// a custom BackendPubsubMarshaler: the JSON one, but MarshalReply writes its own (wrong) operation id
+// and an extra key; the backend stamps the command's id afterwards, so nothing observable may change
+type c18Marsh[R any] struct {
+	inner requestreply.BackendPubsubJSONMarshaler[R]
+}
+
+func (m c18Marsh[R]) MarshalReply(p requestreply.BackendOnCommandProcessedParams[R]) (*message.Message, error) {
+	msg, err := m.inner.MarshalReply(p)
+	if err != nil {
+		return nil, err
+	}
+	msg.Metadata.Set(requestreply.OperationIDMetadataKey, "bogus-from-marshaler")
+	msg.Metadata.Set("x-extra", "1")
+	return msg, nil
+}
+func (m c18Marsh[R]) UnmarshalReply(msg *message.Message) (requestreply.Reply[R], error) {
+	return m.inner.UnmarshalReply(msg)
+}
+
+func c18PickMarshaler[R any](custom bool) requestreply.BackendPubsubMarshaler[R] {
+	if custom {
+		return c18Marsh[R]{}
+	}
+	return requestreply.BackendPubsubJSONMarshaler[R]{}
 }
 
 type c18World struct {
@@ -842,8 +869,10 @@ func c18RunScenario(rt *hookrt.Runtime, sc *c18Scenario, in *script.Interner) er
 	}
 	proc, err := cqrs.NewCommandProcessorWithConfig(router, cqrs.CommandProcessorConfig{
 		GenerateSubscribeTopic: func(cqrs.CommandProcessorGenerateSubscribeTopicParams) (string, error) { return "commands", nil },
-		SubscriberConstructor:  func(cqrs.CommandProcessorSubscriberConstructorParams) (message.Subscriber, error) { return w.pubsub, nil },
-		Marshaler:              marshaler, Logger: logger,
+		SubscriberConstructor: func(cqrs.CommandProcessorSubscriberConstructorParams) (message.Subscriber, error) {
+			return w.pubsub, nil
+		},
+		Marshaler: marshaler, Logger: logger,
 	})
 	if err != nil {
 		return err
@@ -852,7 +881,7 @@ func c18RunScenario(rt *hookrt.Runtime, sc *c18Scenario, in *script.Interner) er
 	var sendRes func(req *c18Req) func(ctx context.Context) error
 	var sendReplies func(req *c18Req) func(ctx context.Context) (func(), error)
 	if sc.WithResult {
-		be, err := requestreply.NewPubSubBackend[c18Res](cfg, requestreply.BackendPubsubJSONMarshaler[c18Res]{})
+		be, err := requestreply.NewPubSubBackend[c18Res](cfg, c18PickMarshaler[c18Res](sc.CustomMarshaler))
 		if err != nil {
 			return err
 		}
@@ -879,7 +908,7 @@ func c18RunScenario(rt *hookrt.Runtime, sc *c18Scenario, in *script.Interner) er
 			}
 		}
 	} else {
-		be, err := requestreply.NewPubSubBackend[struct{}](cfg, requestreply.BackendPubsubJSONMarshaler[struct{}]{})
+		be, err := requestreply.NewPubSubBackend[struct{}](cfg, c18PickMarshaler[struct{}](sc.CustomMarshaler))
 		if err != nil {
 			return err
 		}
@@ -1217,6 +1246,7 @@ func c18Gen(rng *rand.Rand, idx int, maxReqs int) *c18Scenario {
 		}
 		sc.Reqs = append(sc.Reqs, c18GenReq(rng, sc, fmt.Sprintf("s%dr%d", idx, i), force))
 	}
+	sc.CustomMarshaler = idx%3 == 1
 	return sc
 }
 
